@@ -599,7 +599,14 @@ def stripe_proposals(V, modes, cascaded):
     return cl
 
 
-FUNCS = {"tconv_pads": tconv_pads, "stripe_proposals": stripe_proposals, "rows": rows, "cols": cols, "rows_upscaled": rows_upscaled, "area": area, "cascade": cascade}
+def rolling_dims(V, **params):
+    """rolling buffers are tall, wide and deep enough: harness/c02.py rolling_dims (the real rolling_buffer_shape on symbolic stripe shapes)"""
+    from harness import c02
+
+    return c02.rolling_dims(V, **params)
+
+
+FUNCS = {"rolling_dims": rolling_dims, "tconv_pads": tconv_pads, "stripe_proposals": stripe_proposals, "rows": rows, "cols": cols, "rows_upscaled": rows_upscaled, "area": area, "cascade": cascade}
 
 
 
@@ -622,6 +629,7 @@ def instances(tier, seed):
             for striped in (False, True):
                 out.append(dict(key="rows/%s/s%d/%s/split" % (mode, stride, "striped" if striped else "full"), fn="rows",
                                 params=dict(stride=stride, mode=mode, striped=striped, hmax=hmax, kmax=kmax, split=1)))
+    out.append(dict(key="rolling_dims", fn="rolling_dims", params={}))
     for sx, sy in ((1, 1), (2, 2), (2, 1)):
         for padding in ("SAME", "VALID"):
             out.append(dict(key="tconv_pads/%dx%d/%s" % (sx, sy, padding), fn="tconv_pads", params=dict(sx=sx, sy=sy, padding=padding)))
